@@ -253,7 +253,7 @@ func (c *Conn) writeFrame(ctx context.Context, fin bool, flate bool, opcode opco
 	// writers that are still running, and not a second close frame either, be it
 	// the echo of the peer's echo or a Close called after an error already sent one.
 	if c.closeFrameSent {
-		return 0, net.ErrClosed
+		return 0, errCloseFrameSent
 	}
 	if opcode == opClose {
 		c.closeFrameSent = true
@@ -324,6 +324,9 @@ func (c *Conn) writeFrame(ctx context.Context, fin bool, flate bool, opcode opco
 
 	return n, nil
 }
+
+// errCloseFrameSent is returned for frames that would follow our close frame.
+var errCloseFrameSent = fmt.Errorf("close frame already sent: %w", net.ErrClosed)
 
 func (c *Conn) writeFramePayload(p []byte) (n int, err error) {
 	defer errd.Wrap(&err, "failed to write frame payload")
